@@ -586,7 +586,12 @@ func transformSpec(s string) string {
 				return b.String()
 			}
 			inner := s[i+1 : j]
-			parts := splitTopLevel(inner, ',')
+			var parts []string
+			if ti := strings.TrimSpace(inner); strings.HasPrefix(ti, "forall ") || strings.HasPrefix(ti, "exists ") {
+				parts = []string{inner}
+			} else {
+				parts = splitTopLevel(inner, ',')
+			}
 			for k := range parts {
 				parts[k] = transformSpec(parts[k])
 			}
